@@ -290,8 +290,6 @@ ThreadPool::Snapshot ThreadPool::snapshot() const
 
 void ThreadPool::threadProc(ThreadToken thread_token)
 {
-    bool let_main_loop_join_me = false;
-
     LogDbg("thread %u start", thread_token.id());
 
     while (true) {
@@ -304,7 +302,20 @@ void ThreadPool::threadProc(ThreadToken thread_token)
              */
             if ((d_->idle_thread_num >= d_->undo_tasks_cabinet.size()) && (d_->threads_cabinet.size() > d_->min_thread_num)) {
                 LogDbg("thread %u will exit, no more work.", thread_token.id());
-                let_main_loop_join_me = true;
+                /**
+                 * 必须在做出退出决定的同一临界区内将自己从 threads_cabinet 中取出。
+                 * 否则在解锁之后、取出之前的间隙里，execute() 仍把本线程计入线程数，
+                 * 既不创建新线程，也唤不醒任何线程，新任务将无人执行
+                 */
+                auto t = d_->threads_cabinet.free(thread_token);
+                //! 如果为空，说明 cleanup() 已抢先将本线程取走，由它负责 join() 与 delete
+                if (t != nullptr) {
+                    //! 交给main_loop去join()，然后delete
+                    d_->wp_loop->runInLoop(
+                        [t]{ t->join(); delete t; },
+                        "ThreadPool::threadProc, join and delete it"
+                    );
+                }
                 break;
             }
 
@@ -365,21 +376,6 @@ void ThreadPool::threadProc(ThreadToken thread_token)
     }
 
     LogDbg("thread %u exit", thread_token.id());
-
-    if (let_main_loop_join_me) {
-        //! 则将线程取出来，交给main_loop去join()，然后delete
-        std::unique_lock<std::mutex> lk(d_->lock);
-
-        auto t = d_->threads_cabinet.free(thread_token);
-        //! 如果为空，说明 cleanup() 已抢先将本线程取走，由它负责 join() 与 delete
-        if (t != nullptr) {
-            d_->wp_loop->runInLoop(
-                [t]{ t->join(); delete t; },
-                "ThreadPool::threadProc, join and delete it"
-            );
-        }
-        //! 这个操作放到最后来做是为了减少主线程join()的等待时长
-    }
 }
 
 bool ThreadPool::createWorker()
